@@ -235,6 +235,7 @@ class H11Rig:
             async def spawn_app(self_inner, app, config, scope, send):
                 rig.out.append(["spawn_app", 1, R.scope_obs(scope)])
                 rig.app_send = send
+                rig.app_stream = rig.protocol.stream
 
                 async def put(m):
                     rig.out.append(["app_put", 1, R.rmsg_obs(m)])
@@ -246,6 +247,7 @@ class H11Rig:
 
         self.ctx = Ctx(self.driver)
         self.app_send = None
+        self.app_stream = None
         import hypercorn.protocol.h11 as HP
 
         if not isinstance(HP.h11, H11Namespace):
@@ -253,6 +255,18 @@ class H11Rig:
         self.protocol = H11Protocol(None, self.cfg, self.ctx, TG(), ConnectionState({}), ssl, ("1.2.3.4", 5), ("5.6.7.8", 80), self.send)
         self.protocol.connection = ConnProxy(self.protocol.connection, self)
         self.protocol.can_read = RecEv(self.out, "can_read")
+        # ghost of the model (Serial_proofs.v): _create_stream entered while self.stream still holds a stream
+        create = self.protocol._create_stream
+
+        async def create_stream(request):
+            if rig.protocol.stream is not None:
+                rig.out.append(["note", "stream-replaced"])
+            # second ghost (Capped_proofs.v): a request taken on after keep_alive_max_requests were counted
+            if rig.cfg.keep_alive_max_requests <= rig.protocol.keep_alive_requests and rig.protocol.keep_alive_requests >= 1:
+                rig.out.append(["note", "request-over-limit"])
+            await create(request)
+
+        self.protocol._create_stream = create_stream
         self.reader_task = None
         self.steps = []      # (input descriptor, observation)
 
@@ -322,6 +336,10 @@ class H11Rig:
         rb = self.reader_task
         if self.app_send is None:
             self.steps.append((("app", m), [], [[], ["ok"]]))
+            return None
+        if self.protocol.stream is not None and self.protocol.stream is not self.app_stream:
+            # the connection now holds a stream for which no application was spawned (a refused request): the only send()
+            # the rig has belongs to the previous request's application, which the model's slot no longer holds
             return None
         t = self._run_task("app", self.app_send(R.msg_py(m)))
         obs = self._collect(("app", m), t, rb)
